@@ -58,6 +58,15 @@ type refMsg struct {
 // the parent described by pf into layer l, and returns the plans.
 func c07countersign(c *Ctx, r *mon.Rand, l *gen.WLayer, pf ParentFields, depth, scramble int, ext []byte) []*csPlan {
 	label := mon.Pick(r, int64(7), int64(11))
+	plans := c07countersignUnder(c, r, l, pf, depth, scramble, ext, label)
+	if r.Intn(4) == 0 {
+		// the other countersignature label in the same header as well
+		plans = append(plans, c07countersignUnder(c, r, l, pf, depth, scramble, ext, 18-label)...)
+	}
+	return plans
+}
+
+func c07countersignUnder(c *Ctx, r *mon.Rand, l *gen.WLayer, pf ParentFields, depth, scramble int, ext []byte, label int64) []*csPlan {
 	list := r.Bool()
 	n := 1
 	if list {
